@@ -264,6 +264,12 @@ Print Assumptions C07_scalar_vectors_as_block_vectors.
 Print Assumptions C07_block_inner_product.
 Print Assumptions C07_block_entry_inner_product.
 
+(* ... and flattening the block view of a scalar vector whose length is a multiple of b gives the vector back *)
+Theorem C07_scalar_vector_block_view_roundtrip (S0 : Scalar) (b : nat) (x : vec S0) :
+  (length x / b * b)%nat = length x -> flat_of_bvec S0 b (bvec_of_flat S0 b x) = x.
+Proof. exact (flat_of_bvec_of_flat S0 b x). Qed.
+Print Assumptions C07_scalar_vector_block_view_roundtrip.
+
 (* std::complex<T> over a commutative ring T *)
 Section Complex.
 Variable S0 : Scalar.
